@@ -205,14 +205,19 @@ func C05(c *sim.Ctx) {
 				n.FDB.Plan.FailReadAt = n.FDB.Reads + readErrAt
 			}
 		}
+		firedBefore := len(n.FDB.Fired)
 		n.FDB.Paused = false
 		err := apply()
 		n.FDB.Paused = true
 		n.FDB.Plan.FailReadAt, n.FDB.Plan.FailReadMatch = 0, nil
+		// a fault was injected into this very operation: whatever error the operation reports is the
+		// report of that fault (the code under test may replace the database's error by its own text,
+		// e.g. "cannot migrate class ...: metadata not found" for a failed metadata read)
+		faultInThisOp := class == 2 && len(n.FDB.Fired) > firedBefore
 		switch {
 		case err == nil:
 			onOK()
-		case faultdb.IsInjected(err) && class == 2:
+		case class == 2 && (faultdb.IsInjected(err) || faultInThisOp):
 			faultsFired++
 			readErrOp = -1
 			for _, f := range n.FDB.Fired {
